@@ -375,6 +375,26 @@ WriterOK(e) ==
          W(e, IsEvent(e.obs.raw, e.tst, 2, e.sidt, e.npt, e.flags, QueryBody(e.thread4, e.exec4, e.err2, e.vars, e.db, e.sql), Crc(e)))
     [] e.fn = "ev.fde" ->
          W(e, IsEvent(e.raw, e.tst, 15, e.sidt, e.npt, e.flags, FdeBody(e.srvver, e.create4, e.sizes, e.alg), TRUE))
+    [] e.fn = "ev.hist" ->
+         \* every event of a generated stream-family history
+         LET body == CASE e.k = "fde" -> FdeBody(e.srvver, e.create4, e.sizes, e.alg)
+                       [] e.k = "rotate" -> RotateBody(e.pos, e.file)
+                       [] e.k = "xid" -> XidBody(e.xid8)
+                       [] e.k = "query" -> QueryBody(e.thread4, e.exec4, e.err2, e.vars, e.db, e.sql)
+                       [] e.k = "tablemap" -> TableMapBody(e.tidw, e.tidtext, e.db, e.name, e.cols, e.tail)
+                       [] e.k \in {"write", "update", "delete"} ->
+                            RowsBody(e.tidw, e.tidtext, e.v2, e.extrab, Len(e.cols), e.k, e.pb, e.pa, e.rows)
+                       [] e.k \in {"gtid", "anongtid"} -> GtidBody(1, e.sid16, e.gno8, e.gtail)
+                       [] e.k = "prevgtids" -> SidBlockBytes(e.rep)
+                       [] e.k = "heartbeat" -> e.file
+                       [] e.k = "unknown" -> e.body
+             typ == CASE e.k = "fde" -> 15 [] e.k = "rotate" -> 4 [] e.k = "xid" -> 16 [] e.k = "query" -> 2 [] e.k = "tablemap" -> 19
+                      [] e.k \in {"write", "update", "delete"} -> RowsType(e.k, e.v2)
+                      [] e.k = "gtid" -> 33 [] e.k = "anongtid" -> 34 [] e.k = "prevgtids" -> 35 [] e.k = "heartbeat" -> 27
+                      [] e.k = "unknown" -> e.code
+         IN W(e, IsEvent(e.evbytes, e.tst, typ, e.sidt, e.npt, e.flags, body, e.cksum \/ e.k = "fde")) \cup
+            (IF e.obs.valid /\ e.obs.ts = e.ts /\ e.obs.np = e.np THEN {}
+             ELSE {F("C16.header", e, "a well-formed event of a history is rejected by the validity test or its header fields differ")})
     [] OTHER -> {}
 
 Mon(e) ==
